@@ -10,7 +10,7 @@ import random
 import itertools
 from fractions import Fraction
 
-from symx.core import AND, OR, NOT, IMPLIES, ITE, IFF, SNum, ssum, sym_float
+from symx.core import AND, OR, NOT, IMPLIES, ITE, IFF, SNum, ssum, sym_float, sabs
 from symx.stubs import sym_array, SymRandom
 
 PROPERTY = "C04"
@@ -42,7 +42,7 @@ def dot(a, b):
     return ssum(x * y for x, y in zip(a, b))
 
 
-def h_milp(s, rows, c, U, integers, minimize, heuristics=True, warm=None, lns=0, solution_limit=1, b_fixed=None, max_nodes=500, lp_budget=False):
+def h_milp(s, rows, c, U, integers, minimize, heuristics=True, warm=None, lns=0, solution_limit=1, b_fixed=None, max_nodes=500, lp_budget=False, gap_tol=None):
     Status = importlib.import_module("solvor.types").Status
     mod = importlib.import_module("solvor.milp")
     smod = importlib.import_module("solvor.simplex")
@@ -60,6 +60,8 @@ def h_milp(s, rows, c, U, integers, minimize, heuristics=True, warm=None, lns=0,
     s.stub(mod, float=sym_float)
     s.patch(mod, Random=SymRandom(s))
     kw = {"heuristics": heuristics, "lns_iterations": lns, "solution_limit": solution_limit, "max_nodes": max_nodes}
+    if gap_tol is not None:
+        kw["gap_tol"] = gap_tol  # OPTIMAL then means "no integer-feasible point is better by more than gap_tol * |objective|" (absolute near 0)
     if lp_budget:
         kw["max_iter"] = s.int("lp_max_iter", 0, 8)  # simplex pivot budget per node LP: a node that runs out of it proves nothing
     if warm is not None:
@@ -73,7 +75,7 @@ def h_milp(s, rows, c, U, integers, minimize, heuristics=True, warm=None, lns=0,
     st = res.status
     # with a tight node / pivot limit the outcome depends on which node is explored first, and exact ties in "most fractional" (1/3 vs 2/3)
     # are broken by float rounding natively: such runs are held to the obligations but not compared value-by-value with the native run
-    limited = max_nodes < 500 or lp_budget or solution_limit > 1  # (pool: how many solutions are met before the tree is exhausted hangs on pruning ties)
+    limited = max_nodes < 500 or lp_budget or solution_limit > 1 or gap_tol is not None  # (pool: how many solutions are met before the tree is exhausted hangs on pruning ties)
     if not limited:
         s.observe("status", int(st))
     else:
@@ -131,9 +133,13 @@ def h_milp(s, rows, c, U, integers, minimize, heuristics=True, warm=None, lns=0,
         s.goal("milp.solution_pool")
     if st == Status.OPTIMAL:
         conds = []
+        slack = 0
+        if gap_tol is not None:
+            mag = sabs(res.objective)
+            slack = ITE(mag < Fraction(1, 10 ** 10), gap_tol, gap_tol * mag) if isinstance(mag, SNum) else (gap_tol if mag < 1e-10 else gap_tol * mag)
         for k, p in enumerate(pts):
             xp, feas = full(p, "o%d" % k)
-            conds.append(IMPLIES(feas, sign * dot(c, xp) >= sign * res.objective - 10 * TOL))
+            conds.append(IMPLIES(feas, sign * dot(c, xp) >= sign * res.objective - 10 * TOL - slack))
         s.check(AND(conds), "milp.optimal_means_no_integer_feasible_point_is_better")
         s.goal("milp.optimal")
     if res.iterations > 1:
@@ -281,6 +287,11 @@ def items(tier, rng):
         cell.pop("b_fixed")
         out.append({"name": "milp_lp_budget", "harness": "h_milp", "max_paths": 300, "spread": rng.randrange(1 << 30),
                     "params": dict(cell, lp_budget=True, heuristics=(k % 2 == 0))})
+    for k, cell in enumerate(branching_cells(random.Random(rng.randrange(1 << 30)), 10 if q else 100)):
+        cell = dict(cell)
+        cell.pop("b_fixed")
+        out.append({"name": "milp_gap_tol", "harness": "h_milp", "max_paths": 300, "spread": rng.randrange(1 << 30),
+                    "params": dict(cell, gap_tol=(0.1, 0.5, 0.25)[k % 3], heuristics=(k % 2 == 0))})
     # symbolic warm start on concrete cells that branch: acceptance of the incumbent and everything after it, for ALL warm vectors
     for cell in branching_cells(random.Random(rng.randrange(1 << 30)), 24 if q else 240):
         out.append({"name": "milp_warm_sym_branching", "harness": "h_milp", "max_paths": 400, "spread": rng.randrange(1 << 30),
